@@ -134,6 +134,10 @@ func runC19(c *runCtx) {
 	for i := 0; i < 12; i++ {
 		pool = append(pool, g.Statement())
 	}
+	// the same kinds of text as files come from other editors: CRLF and mixed line endings, a lone CR, a final newline or
+	// several, a byte-order mark
+	pool = append(pool, "SELECT a\r\nFROM t\r\nWHERE b = 1\r\n", "select a,b\r\nfrom t;\r\nselect c from u;\r\n", "SELECT a FROM t\r\n", "SELECT a\r\nFROM t\nWHERE b = 1\r", "SELECT a FROM t\n\n\n",
+		"\ufeffSELECT a FROM t\n", "-- c\r\nSELECT 1\r\n", "SELECT FROM\r\n", "SELECT 'a\r\nb' FROM t\r\n", "select a from t where b = 1\r\n\r\n")
 	write := func(name, content string) string {
 		p := filepath.Join(dir, name)
 		_ = os.MkdirAll(filepath.Dir(p), 0o755)
@@ -338,6 +342,9 @@ func runC19(c *runCtx) {
 		ct := pool[c.rng.Intn(len(pool))]
 		if ct == "" {
 			continue
+		}
+		if c.rng.Chance(30) {
+			ct = strings.ReplaceAll(strings.ReplaceAll(ct, "\r\n", "\n"), "\n", "\r\n") + c.rng.Pick([]string{"\r\n", "", "\r\n\r\n"})
 		}
 		fl := flagSets[c.rng.Intn(len(flagSets))]
 		f1 := write("fmt/a.sql", ct)
